@@ -42,8 +42,8 @@ def Sized (count : Nat) (rs : List Rule) : Prop := ∀ r ∈ rs, r.length = coun
 theorem take_sized {count : Nat} {r : Rule} (h : r.length = count) : r.take count = r := by
   rw [← h]; exact List.take_length
 
-theorem incLinks_add (count : Nat) (rs store : List Rule) (hs : Sized count rs) (hd : store.Nodup) :
-    ∃ res, incLinks count true store rs = .ok res ∧ res.Nodup ∧ ∀ x, x ∈ res ↔ x ∈ store ∨ x ∈ rs := by
+theorem incLinks_add (count : Nat) (pol rs store : List Rule) (hs : Sized count rs) (hd : store.Nodup) :
+    ∃ res, incLinks count true pol store rs = .ok res ∧ res.Nodup ∧ ∀ x, x ∈ res ↔ x ∈ store ∨ x ∈ rs := by
   induction rs generalizing store with
   | nil => exact ⟨store, rfl, hd, by simp⟩
   | cons r rs ih =>
@@ -53,21 +53,33 @@ theorem incLinks_add (count : Nat) (rs store : List Rule) (hs : Sized count rs) 
     · unfold incLinks; simp [hr, take_sized hr, h1]
     · intro x; rw [h3, addLink_mem]; simp only [List.mem_cons]; grind
 
-theorem incLinks_del (count : Nat) (rs store : List Rule) (hs : Sized count rs) (hd : store.Nodup) :
-    ∃ res, incLinks count false store rs = .ok res ∧ res.Nodup ∧ ∀ x, x ∈ res ↔ x ∈ store ∧ x ∉ rs := by
+/-- removal on well-sized rules that are no longer stored: no remaining rule shares a link, every link is deleted -/
+theorem incLinks_del (count : Nat) (pol rs store : List Rule) (hs : Sized count rs) (hd : store.Nodup)
+    (hp : Sized count pol) (hnot : ∀ r ∈ rs, r ∉ pol) :
+    ∃ res, incLinks count false pol store rs = .ok res ∧ res.Nodup ∧ ∀ x, x ∈ res ↔ x ∈ store ∧ x ∉ rs := by
   induction rs generalizing store with
   | nil => exact ⟨store, rfl, hd, by simp⟩
   | cons r rs ih =>
     have hr : r.length = count := hs r (by simp)
+    have hshare : pol.any (fun o => o.take count == r.take count) = false := by
+      apply List.any_eq_false.mpr
+      intro o ho hc
+      have : o.take count = r.take count := by simpa using hc
+      rw [take_sized (hp o ho), take_sized hr] at this
+      exact hnot r (by simp) (this ▸ ho)
     obtain ⟨res, h1, h2, h3⟩ := ih (delLink store r) (fun x hx => hs x (by simp [hx])) (delLink_nodup store r hd)
+      (fun x hx => hnot x (by simp [hx]))
     refine ⟨res, ?_, h2, ?_⟩
-    · unfold incLinks; simp [hr, take_sized hr, h1]
+    · unfold incLinks
+      have hlt : ¬ r.length < count := by omega
+      simp only [hlt, ↓reduceIte, Bool.false_eq_true, hshare]
+      rw [take_sized hr]; exact h1
     · intro x; rw [h3, delLink_mem _ _ _ hd]; simp only [List.mem_cons]; grind
 
 /-- building from scratch yields exactly the (well-sized) rules -/
 theorem buildLinks_spec (count : Nat) (rules : List Rule) (hs : Sized count rules) :
     ∃ res, buildLinks count rules = .ok res ∧ res.Nodup ∧ ∀ x, x ∈ res ↔ x ∈ rules := by
-  obtain ⟨res, h1, h2, h3⟩ := incLinks_add count rules [] hs List.nodup_nil
+  obtain ⟨res, h1, h2, h3⟩ := incLinks_add count [] rules [] hs List.nodup_nil
   exact ⟨res, h1, h2, by intro x; rw [h3]; simp⟩
 
 /-! ## coherence -/
@@ -152,7 +164,8 @@ theorem coherent_update (cfg : Cfg) (s : St) (h : Coherent cfg s) (sec : Sec) (r
 /-- what `relink` does on a coherent state with well-sized rules -/
 theorem relink_spec (cfg : Cfg) (s : St) (sec : Sec) (add : Bool) (rules : List Rule)
     (hauto : s.autoBuild = true) (hd : sec ≠ .p → (s.links.get sec).Nodup)
-    (hs : sec ≠ .p → Sized (cfg.count sec) rules) :
+    (hs : sec ≠ .p → Sized (cfg.count sec) rules)
+    (hrem : add = false → sec ≠ .p → Sized (cfg.count sec) (s.pol.get sec) ∧ ∀ r ∈ rules, r ∉ s.pol.get sec) :
     ∃ s2, relink cfg s sec add rules = .ok s2 ∧ s2.pol = s.pol ∧ s2.autoBuild = s.autoBuild ∧
       (sec = .p → s2.links = s.links) ∧
       (sec ≠ .p → ∃ l, s2.links = s.links.set sec l ∧ l.Nodup ∧
@@ -163,11 +176,12 @@ theorem relink_spec (cfg : Cfg) (s : St) (sec : Sec) (add : Bool) (rules : List 
   · simp only [hsec, decide_false, hauto, Bool.not_true, Bool.or_self, Bool.false_eq_true, ↓reduceIte]
     cases add with
     | true =>
-      obtain ⟨res, h1, h2, h3⟩ := incLinks_add (cfg.count sec) rules (s.links.get sec) (hs hsec) (hd hsec)
+      obtain ⟨res, h1, h2, h3⟩ := incLinks_add (cfg.count sec) (s.pol.get sec) rules (s.links.get sec) (hs hsec) (hd hsec)
       rw [h1]
       exact ⟨_, rfl, rfl, rfl, fun e => e.elim, fun _ => ⟨res, rfl, h2, by simpa using h3⟩⟩
     | false =>
-      obtain ⟨res, h1, h2, h3⟩ := incLinks_del (cfg.count sec) rules (s.links.get sec) (hs hsec) (hd hsec)
+      obtain ⟨res, h1, h2, h3⟩ := incLinks_del (cfg.count sec) (s.pol.get sec) rules (s.links.get sec) (hs hsec) (hd hsec)
+        (hrem rfl hsec).1 (hrem rfl hsec).2
       rw [h1]
       exact ⟨_, rfl, rfl, rfl, fun e => e.elim, fun _ => ⟨res, rfl, h2, by simpa using h3⟩⟩
 
@@ -190,7 +204,17 @@ theorem coherent_change (cfg : Cfg) (s : St) (h : Coherent cfg s) (sec : Sec) (l
   have hauto : (persist cfg { s with pol := s.pol.set sec l } c w).autoBuild = true := by rw [hp3]; exact h.auto
   have hd : sec ≠ .p → ((persist cfg { s with pol := s.pol.set sec l } c w).links.get sec).Nodup := by
     intro hsec; rw [hp2]; exact (h.sec sec hsec).nodupL
-  obtain ⟨s2, h1, h2, h3, h4, h5⟩ := relink_spec cfg _ sec add rules hauto hd hs
+  have hrem : add = false → sec ≠ .p →
+      Sized (cfg.count sec) ((persist cfg { s with pol := s.pol.set sec l } c w).pol.get sec) ∧
+      ∀ r ∈ rules, r ∉ (persist cfg { s with pol := s.pol.set sec l } c w).pol.get sec := by
+    intro hadd hsec
+    rw [hp1]
+    simp only [set_get_same]
+    refine ⟨hsz hsec, fun r hr hin => ?_⟩
+    have := (hmem r).mp hin
+    simp only [hadd, Bool.false_eq_true, ↓reduceIte] at this
+    exact this.2 hr
+  obtain ⟨s2, h1, h2, h3, h4, h5⟩ := relink_spec cfg _ sec add rules hauto hd hs hrem
   refine ⟨s2, h1, ?_⟩
   by_cases hsec : sec = .p
   · have hlk := h4 hsec
@@ -733,6 +757,23 @@ theorem short_addMany_refused (cfg : Cfg) (s : St) (sec : Sec) (rs : List Rule) 
 example : (step { gCount := 2 } { pol := { g := [["alice", "admin"]] }, links := { g := [["alice", "admin"]] } }
     (.addMany .g [["bob", "admin"], ["carol"]])) =
     ({ pol := { g := [["alice", "admin"]] }, links := { g := [["alice", "admin"]] } }, .error .shortGroupingRule) := by decide
+
+/-- **F28 repaired**: rules that differ only beyond the role definition share one link; removing one of them keeps
+    the link as long as another is still stored … -/
+theorem shared_link_survives (count : Nat) (pol store : List Rule) (r : Rule) (hr : count ≤ r.length)
+    (hshare : ∃ o ∈ pol, o.take count = r.take count) : incLinks count false pol store [r] = .ok store := by
+  obtain ⟨o, ho, he⟩ := hshare
+  have hlt : ¬ r.length < count := by omega
+  have hany : pol.any (fun o => o.take count == r.take count) = true :=
+    List.any_eq_true.mpr ⟨o, ho, by simpa using he⟩
+  simp [incLinks, hlt, hany]
+
+/-- … and goes with the last of them (the whole scenario on the model: two over-long rules, removed one after the other) -/
+example :
+    let s0 : St := { pol := { g := [["alice", "admin", "x"], ["alice", "admin", "y"]] }, links := { g := [["alice", "admin"]] } }
+    let s1 := (step { gCount := 2 } s0 (.remove .g ["alice", "admin", "x"])).1
+    let s2 := (step { gCount := 2 } s1 (.remove .g ["alice", "admin", "y"])).1
+    s1.links.g = [["alice", "admin"]] ∧ s1.pol.g = [["alice", "admin", "y"]] ∧ s2.links.g = [] ∧ s2.pol.g = [] := by decide
 
 /-! ## Non-vacuity -/
 
